@@ -113,6 +113,14 @@ def trigMissingRebuild (p : PackageIR) : Bool :=
 def trigForwardRefDangling (p : PackageIR) : Bool :=
   p.modules.any fun m => (m.kind == .result || m.kind == .fragments) && !(m.classes.all fun c => c.fwd.all m.defines.contains)
 
+/-- F26 (C18's reserved-name defect seen from the package): a field of a generated pydantic model is called like an attribute
+    of `BaseModel` (`PYDANTIC_RESERVED_FIELD_NAMES`).  `process_name` appends `_` to such a name BEFORE it strips leading
+    underscores, so `_copy` with `convert_to_snake_case = false` becomes the field `copy`: pydantic warns at import
+    (field name `copy` shadows an attribute in parent `BaseModel`) and `model.copy` is the field's value. -/
+def trigFieldShadowsBaseModel (p : PackageIR) : Bool :=
+  p.modules.any fun m => (m.kind == .result || m.kind == .fragments || m.kind == .inputs) &&
+    m.classes.any fun c => c.fields.any Tables.pydanticReserved.contains
+
 /-- F13: a file is written twice (`_validate_unique_file_names` does not know the four custom-operation files nor
     `__init__.py`): the reported list names it twice, the first content is lost -/
 def trigFileWrittenTwice (p : PackageIR) : Bool := hasDup p.writeLog
@@ -237,7 +245,8 @@ def triggerTable (cfg : Config) (inp : Input) : List (String × Bool) :=
    ("pluginExtractOperations", cfg.extractOps.isSome),
    ("operationModuleOverwritten", trigOperationModuleOverwritten cfg inp),
    ("enumDefaultNotEnum", trigEnumDefaultNotEnum cfg inp),
-   ("forwardRefDangling", onIR cfg inp trigForwardRefDangling)]
+   ("forwardRefDangling", onIR cfg inp trigForwardRefDangling),
+   ("fieldShadowsBaseModel", onIR cfg inp trigFieldShadowsBaseModel)]
 
 /-- the names of the triggers that hold (what the driver answers to `op: triggers`) -/
 def triggers (cfg : Config) (inp : Input) : List String :=
